@@ -9,6 +9,8 @@ import XsdataModel.Proofs.QNameL
 import XsdataModel.Proofs.EnumL
 import XsdataModel.Proofs.DecimalL
 import XsdataModel.Proofs.FloatL
+import XsdataModel.Conv.TblCEnv
+import XsdataModel.Spec.XmlName
 
 namespace Props.C05
 open Py Xs.Conv Xs.Spec
@@ -90,12 +92,6 @@ theorem hex_accepts (e : Env) (s s' : Str) (bs : Bytes) (h : XsdHexBinary s bs)
     (hws : removeWs e s' = s) :
     bytesDeserialize e s' (some Tables.fmtBase16) = some bs := by
   simp [bytesDeserialize, hws, unhexlify_lex s bs h]
-
-theorem removeWs_noSpace (e : Env) (s : Str) (h : ∀ c ∈ s, e.isSpace c = false) : removeWs e s = s := by
-  unfold removeWs
-  rw [List.filter_eq_self]
-  intro c hc
-  simp [h c hc]
 
 /-- base16 round trip for every octet string -/
 theorem hex_rt (e : Env) (k : BytesKind) (bs : Bytes) (h : AllBytes bs) :
@@ -700,6 +696,24 @@ theorem ncname_ascii_accepts (e : CEnv) (s : Str) (h : isAsciiNcName s = true) :
   isNcName_of_ascii e s h
 
 example : isAsciiNcName ['f', 'o', 'o', '-', 'b', 'a', 'r', '.', '1', '_'] = true := by decide
+
+/-- **Full strength**: `is_ncname` accepts every XML NCName (so every xs:QName
+lexical form with bound prefix is accepted). -/
+def NcNameComplete (e : CEnv) : Prop := ∀ s, isXmlNcName s = true → isNcName e s = true
+
+/-- **The code violates it** on the Unicode tables of the running interpreter:
+`कि` (U+0915 DEVANAGARI KA, U+093F VOWEL SIGN I) and `á` written with a
+combining acute (U+0061 U+0301) are NCNames, but a vowel sign / combining mark is
+neither `isalpha()` nor `isdigit()`. The provable part is `ncname_ascii_accepts`. -/
+theorem ncname_unicode_counterexample : ¬ NcNameComplete (tblCEnv fun _ => []) := by
+  intro h
+  have := h [Char.ofNat 0x915, Char.ofNat 0x93F] (by decide +kernel)
+  revert this
+  decide +kernel
+
+theorem ncname_combining_mark_witness :
+    isXmlNcName ['a', Char.ofNat 0x301] = true ∧ isNcName (tblCEnv fun _ => []) ['a', Char.ofNat 0x301] = false := by
+  decide +kernel
 
 /-! ### QName without prefix map (`{uri}local` notation) -/
 
